@@ -107,16 +107,16 @@ func WConfig(prop, tier string) *Config {
 		}
 	case "C12":
 		ops := []string{"bond_lp1_L", "unbond_lp2_half", "unbond_lp1_all", "join_p1_all_t1", "exit_p1_all_t1", "exit_p1_10pct_lp1", "join_p2_all_t1", "exit_p2_all_t1", "llp_open_t1_x3", "llp_close_full_t1", "llp_bot_close_all", "mc_claim_lp1", "commit_eden_lp1", "commit_edenb_lp1", "uncommit_eden_lp1",
-			"vest_eden_lp1", "cancel_vest_lp1", "claim_vesting_lp1", "stake_elys_lp1", "unstake_elys_lp1", "gap_59m", "gap_61m", "price_atom_2", "empty", "exit_p2_all_lp1", "unbond_lp2_all"}
+			"vest_eden_lp1", "cancel_vest_lp1", "claim_vesting_lp1", "stake_elys_lp1", "unstake_elys_lp1", "gap_59m", "gap_61m", "price_atom_2", "empty", "exit_p2_all_lp1", "unbond_lp2_all", "estaking_withdraw_lp1", "unstake_elys_lp1_all", "uncommit_eden_lp1_all", "uncommit_edenb_lp1_all"}
 		cfg.Oracles = []*Oracle{OracleC12()}
-		roots016 := []string{"R0", "R1", "R6"}
+		roots016 := []string{"R0", "R1", "R6", "R8"}
 		if thorough {
 			cfg.Phases = []Phase{{Name: "full-depth3", Roots: roots016, Ops: ops, Depth: 3, Dev: 3}, {Name: "commit-depth4", Roots: []string{"R1"}, Ops: []string{"mc_claim_lp1", "commit_eden_lp1", "commit_edenb_lp1", "uncommit_eden_lp1", "vest_eden_lp1", "cancel_vest_lp1", "stake_elys_lp1", "unstake_elys_lp1", "exit_p1_10pct_lp1", "unbond_lp2_half", "gap_61m"}, Depth: 4, Dev: 3}}
 		} else {
 			cfg.Phases = []Phase{{Name: "full-depth2", Roots: roots016, Ops: ops, Depth: 2, Dev: 2}}
 		}
 	case "C13":
-		ops := []string{"swap_in_p1_usdc_atom_L", "swap_in_p2_usdc_elys_L", "fee_tx_uusdc", "fee_tx_uatom", "fee_tx_uelys", "perp_open_long_t1", "perp_close_full_t1", "gap_1d", "ext_incentive_lp1", "join_p1_all_t1", "exit_p1_all_t1", "exit_p1_10pct_lp1", "join_p2_all_lp2", "bond_lp1_L", "unbond_lp2_half",
+		ops := []string{"swap_in_p1_usdc_atom_L", "swap_in_p2_usdc_elys_L", "fee_tx_uusdc", "fee_tx_uatom", "fee_tx_uelys", "perp_open_long_t1", "perp_close_full_t1", "gap_1d", "ext_incentive_lp1", "ext_incentive_now_lp1", "join_p1_all_t1", "exit_p1_all_t1", "exit_p1_10pct_lp1", "join_p2_all_lp2", "bond_lp1_L", "unbond_lp2_half",
 			"llp_open_t1_x3", "llp_close_full_t1", "mc_claim_lp1", "mc_claim_lp2", "mc_claim_t1", "empty"}
 		cfg.Oracles = []*Oracle{OracleC13()}
 		if thorough {
